@@ -42,7 +42,7 @@ def run(r):
     r.rule = RULE
     r.assumptions = ["the harness sfnt reader (harness/src/c12_sfnt.rs) extracts glyph records, metrics and cmap faithfully from font bytes "
                      "(it is the bridge between bytes and the abstract font; the byte encoding itself is not proved)",
-                     "simple-glyph outlines of sets with more than 24 reachable glyphs travel as 96-bit digests",
+                     "simple-glyph outlines of sets with more than 24 reachable glyphs travel as 64-bit digests",
                      "CFF: the library's desubroutinize is trusted to inline the ORIGINAL charstring; CID-keyed CFF input is not exercised "
                      "(SourceHanSansSC-Regular.otf is an empty file in this sandbox)",
                      "needed/num_glyphs > 0.5 in f32 equals 2*needed > num_glyphs for 16-bit counts"]
